@@ -51,11 +51,23 @@ func VerifHarness_Block_EndAccumulate() {
 	}
 	present := verifSetStatuses(u)
 	vals := st.Validators.GetValidators()
+	// config "toDrop": the first validator was switched off by a transaction of
+	// this block (SetCandidateOff marks it to be dropped): whatever it accrued
+	// so far returns to the pot and it takes no share of this block, even if it
+	// signed the previous one
+	dropped := make([]bool, len(vals))
+	returned := big.NewInt(0)
+	if verifConfig("toDrop") == 1 {
+		vals[0].SetAccumReward(verifBigNN("accum.dropped"))
+		returned.Set(vals[0].GetAccumReward())
+		st.Validators.SetToDrop(vals[0].PubKey)
+		dropped[0] = true
+	}
 	var acc0 []*big.Int
 	total := big.NewInt(0)
 	for i, v := range vals {
 		acc0 = append(acc0, new(big.Int).Set(v.GetAccumReward()))
-		if present[i] {
+		if present[i] && !dropped[i] {
 			total.Add(total, v.GetTotalBipStake())
 		}
 	}
@@ -81,8 +93,13 @@ func VerifHarness_Block_EndAccumulate() {
 		verifAssert("C28:emission+=safeReward", dEmission.Cmp(safe) == 0)
 		verifAssert("C28:withheld-part-to-zero-address", new(big.Int).Sub(st.Accounts.GetBalance(types.Address{}, 0), zero0).Cmp(new(big.Int).Sub(safe, reward)) == 0)
 	}
+	pot.Add(pot, returned)
 	paid := big.NewInt(0)
 	for i, v := range vals {
+		if dropped[i] {
+			verifAssert("C19:dropped-validator-accrues-nothing", v.GetAccumReward().Sign() == 0)
+			continue
+		}
 		got := new(big.Int).Sub(v.GetAccumReward(), acc0[i])
 		paid.Add(paid, got)
 		if present[i] && total.Sign() > 0 {
